@@ -833,6 +833,10 @@ def r22_keyspace_types(ctx, rule):
     for k, v, st in pairs:
         for what, e in (('level', k), ('keyspace', v)):
             x = expand(fn, e, stores, depth=2)
+            if isinstance(x, ast.Name):
+                ok = False
+                ctx.unk(rule, q, 'the %s is bound in a way this rule does not follow (%s)' % (what, U(x)))
+                continue
             if not (isinstance(x, ast.Call) and call_name(x) == 'int' and len(x.args) == 1):
                 ok = False
                 ctx.bad(rule, q, 'the %s is stored as %s' % (what, U(x)[:50]), 'both columns of omen_keyspace.txt are integers and are looked '
